@@ -358,6 +358,8 @@ def run(mon: Monitor, tier: str, seed: int, shard: int, nshards: int) -> None:
         shp = shapes(rng)
         for tags in streams(rng, names) + [p for p in pairs if rep == 0 or rng.random() < 0.15]:
             kinds = [rng.choice(KINDS[:9]) for _ in tags]
+            if rng.random() < 0.3:
+                kinds = [kinds[0]] * len(tags)  # twins: byte-identical coordinates under different CRS tags (de-duplication by shape must not hide the tag)
             for op in NARY:
                 mon.case = {"kind": "nary", "op": op, "tags": list(tags), "kinds": kinds}
                 try:
